@@ -555,9 +555,15 @@ func (idx *SelectorAndNamedPortIndex) UpdateEndpointOrSet(
 		newEndpointData.labels = labels
 	}
 	if len(parentIDs) > 0 {
-		parents := make([]*npParentData, len(parentIDs))
+		// Skip repeated parent IDs: a repeat never changes the inherited labels (the first
+		// occurrence wins) but it would make us discard the endpoint from the same parent
+		// twice when the endpoint goes away.
+		parents := make([]*npParentData, 0, len(parentIDs))
 		for i, pID := range parentIDs {
-			parents[i] = idx.getOrCreateParent(pID)
+			if slices.Contains(parentIDs[:i], pID) {
+				continue
+			}
+			parents = append(parents, idx.getOrCreateParent(pID))
 		}
 		newEndpointData.parents = parents
 	}
